@@ -90,7 +90,7 @@ class CleanSem(Semantics):
         return True, True
 
 
-def run(ctx):
+def _run_structural(ctx):
     idx = ctx.index
     res = ctx.resolver
     from ..inline import inlined
@@ -108,7 +108,8 @@ def run(ctx):
     allowed = {"gwf.plugins.clean:_delete_file", "gwf.plugins.clean:clean", "gwf.plugins.run:clean_logs"}
     for key, effs in sorted(deleters.items()):
         f = idx.functions[key]
-        r1.check(key in allowed, f"{f.module.relpath}::{f.qual}::delete", f"{len(effs)} delete site(s) in an owner",
+        owned = key in allowed or res.owned_by(f, ["gwf.plugins.clean:clean", "gwf.plugins.run:clean_logs", "gwf.plugins.run:run"])
+        r1.check(owned, f"{f.module.relpath}::{f.qual}::delete", f"{len(effs)} delete site(s) in an owner (or a helper only its owner calls)",
                  f"{f.qual} deletes files ({effs[0].detail}): only `gwf clean` and the log cleaning of `gwf run` may remove anything", effs[0].where)
     if not any(k.startswith("gwf.plugins.clean:") for k in deleters):
         r1.violation(ccon + "::delete", "clean never deletes anything: unprotected outputs of selected targets are not removed", clean.where)
@@ -249,3 +250,23 @@ def run(ctx):
     r5 = ctx.rule("R5", "protected paths and outputs are normalised by the same function on every path")
     from .c03 import rule_norm_path
     rule_norm_path(ctx, r5)
+
+
+def run(ctx):
+    """Structural rules first; the command evaluated on the witness project decides where they do not recognise the shape."""
+    from ..loader import AnalysisError
+    from .evalhelpers import cached_witness, clean_command_witness
+    w = cached_witness(ctx, "clean_command_witness", clean_command_witness)
+    n0 = len(ctx.rules)
+    try:
+        _run_structural(ctx)
+    except (AnalysisError, Exception) as exc:
+        if w[2] is not None and not w[1]:
+            raise
+        r0 = ctx.rule("R0", "the structural rules cannot follow this shape of the command; decided by its evaluation on the witness project")
+        r0.info("src/gwf/plugins/clean.py::clean", f"structural analysis stopped: {type(exc).__name__}: {str(exc)[:120]}")
+        for d in w[1][:3]:
+            r0.violation(r0.id + "::witness", d, "")
+        for r in ctx.rules[n0:]:
+            r.min_instances = 0
+    ctx.reconcile(ctx.rules[n0:], lambda c: "plugins/clean.py" in c, (w[0], [], w[2]) if True else w, "src/gwf/plugins/clean.py::clean", "src/gwf/plugins/clean.py:1")
